@@ -15,6 +15,10 @@ def _compare(rec):
     i, m = rec["impl"], rec["model"]
     if i.startswith("skip") or m.startswith("skip"):
         return True
+    if rec["case"].startswith("tj "):
+        # eq= is the library's own == between x and from_json(model JSON): it ignores remembered encodings, the model's
+        # wire values do not; the judge reads it, the exact comparison is on the JSON tokens and the bytes
+        i = i.replace(" eq=1", "").replace(" eq=0", "")
     return i == m
 
 
@@ -41,6 +45,7 @@ CFG = {
         "C17_plutus_detailed_roundtrip", "C17_plutus_detailed_roundtrip_refuted", "C17_plutus_out_of_schema_is_error",
         "C17_plutus_in_schema_converts", "C17_chunks", "C17_chunks_valid_metadata", "C17_unchunk_rejects",
         "C17_serde_forms_roundtrip", "C17_serde_forms_canonical", "C17_serde_forms_total", "C17_old_behaviour_refuted",
+        "C17_serde_read_write", "C17_serde_typed_roundtrip", "C17_serde_table_roundtrip", "C17_serde_annotations_wf",
     ],
     "allowed_axioms": [],
     "level_text": "Coq proofs (closed under the global context) about an executable model of metadata.rs / plutus_data.rs JSON conversions: "
@@ -51,36 +56,49 @@ CFG = {
                   "value, never a panic) outside it; every Plutus datum tree (arbitrary big integers, multi-valued map keys, every depth) round-trips "
                   "through DetailedSchema JSON outside the known class `a map key with an empty value list'; decode_arbitrary_bytes(encode_arbitrary_bytes bs) = bs "
                   "for ALL byte strings and the encoding is valid metadata; the hand-written serde string forms (BigNum/Int/BigInt decimal, hashes and "
-                  "AssetName hex) round-trip in both directions. The model is tied to the compiled code by an exact differential run (both legs of every "
-                  "conversion, token-exact).",
-    "level_note": "PARTIAL for the first sentence of the property (typed ledger values to_json/from_json): serde's derive expansion and JSON text "
-                  "parsing/printing are external code; covered by (a) the string-form theorems C17_serde_forms_* and (b) an OBSERVATION stream (no model): "
-                  "for ~70 typed ledger types, values decoded from C01-generated encodings go through to_json/from_json; the judge requires that the value "
-                  "that came back (maps filled in ascending order by construction) round-trips exactly (==, to_bytes, JSON text), that the CBOR of the "
-                  "original and of the returned value are equal up to the order of map entries (generic CBOR normaliser in the harness), and that equal "
-                  "bytes imply ==. Trusted: Coq kernel; the hand-written model (tied by correspondence on the generated cases); serde_json text<->tree "
-                  "(harness side, arbitrary_precision on, preserve_order off - both facts are part of the model: numbers keep their literal, objects "
-                  "are sorted maps); hex / num-bigint / Rust integer parsing rules transcribed from the crates; extraction and the OCaml/Rust glue. No axioms.",
+                  "AssetName hex) round-trip in both directions. TYPED LEDGER VALUES (first sentence): the serde JSON form is modelled as an annotation "
+                  "language over the C01 wire-value trees (records, optional-field records, externally tagged enums, sequences, tuples, maps written as "
+                  "objects and read back in the Rust key order, nullables, re-packing isomorphisms, hand-written converters) with ONE generic proof by "
+                  "induction on the annotation: of_json_s a (json_s a v) = Ok (norm_s a v) for every value in the annotation's domain, and norm_s a v = v "
+                  "when map-typed parts were filled in ascending key order and the value is in default wire form (`canonical', decidable) - hence equal value "
+                  "and the same CBOR bytes - instantiated on 60 annotated ledger types to every depth (inputs, credentials, DRep, anchor, relays, pool params, "
+                  "all 19 certificate forms, assets, multi-asset, value, mint, withdrawals, voters, voting procedures, governance actions, proposals, "
+                  "cost models, protocol parameter updates, update, native scripts, script refs, outputs, transaction body, redeemers, witness set, "
+                  "auxiliary data, metadata, transaction, header (both eras), block). All models are tied to the compiled code by an exact differential "
+                  "run: token-exact JSON in both directions and byte-exact CBOR of what from_json builds from the MODEL's JSON.",
+    "level_note": "Typed clause: the annotations (Json/SerdeLedger.v) are model, tied to the Rust derives / impls by the `tj' stream (x.to_json() == json_s, "
+                  "T::from_json(model JSON).to_bytes() == enc (of_json_s ..), on C01-generated values and on their normal forms); the premise `jwf' "
+                  "(value in the annotation's domain; includes that the external bech32 strings round-trip on this value - no law about bech32 or "
+                  "JSON text is assumed, both are parameters of the theorems) is evaluated by the extracted judge on every generated value and a "
+                  "schema-valid value outside it is reported as a failure. NOT covered by the typed theorem (observation stream `ty' only): the stand-alone "
+                  "legacy/map output schema names, types without to_json (TransactionMetadatum, PlutusData, PlutusList) and the ~60 further public types of "
+                  "ledger_schemas_more (stand-alone certificate structs, relays, actions ...), which the harness does not dispatch. Known classes seen through "
+                  "the typed model: Plutus V2/V3 script language lost (canonical = false), metadatum integer below -2^63 (to_json fails, jwf = false). "
+                  "Trusted: Coq kernel; the hand-written model (tied by correspondence on the generated cases); serde_json text<->tree "
+                  "(harness side, arbitrary_precision on, preserve_order off - both facts are part of the model); hex / num-bigint / Rust integer parsing rules "
+                  "transcribed from the crates; the harness's placeholder exchange of bech32 strings and embedded JSON text; extraction and the OCaml/Rust glue. No axioms.",
     "rule": "generated per run: 1400 JSON documents for the three metadata schemas (in-schema, normal-form and mutated just outside: floats, -0, "
             "integers at i64::MIN / u64::MAX / beyond, 0x-hex strings with upper case / odd length / 64 and 65 bytes, numeric-looking keys with +, "
             "leading zeros, i128 extremes, wrong tags, entries with missing or extra keys, duplicate map keys), 900 metadata trees (non-string keys, "
             "sorted and unsorted text-key maps, ints over -2^64..2^64-1, 64-byte strings), 240 chunk-helper cases (lengths 0,1,63,64,65,127..193, random), "
             "500+500 Plutus detailed cases (multi-valued and empty-valued keys, 2^64 and 80-digit integers, constructor alternatives at every tag class), "
-            "300 Plutus BasicConversions cases (UTF-8 / control-character edge byte strings), 140 serde string-form cases, and 40 encodings per typed "
-            "ledger type from the C01 schema walk (observation stream); thorough = 12x (typed: 400 per type). Comparison: exact on both legs' token forms; "
+            "300 Plutus BasicConversions cases (UTF-8 / control-character edge byte strings), 300 serde string-form cases, 64 encodings per typed "
+            "ledger type from the C01 schema walk: `ty' observation stream (all dispatched types) and `tj' exact stream (60 annotated types; each value and, "
+            "when different, the value that comes back from its JSON); thorough = 50x (typed: 400 per type, tj on every second). Comparison: exact on both legs' token forms; "
             "non-trivial = distinct case whose two legs both succeed (typed: value went through to_json/from_json)",
     "trusted_base": [
         "serde_json (text <-> Value), hex, num-bigint, core integer parsing: external; their documented rules are transcribed into the model "
         "(Json/Decimal.v, Base/Hex.v, PlutusJson.v parse_bigint) and exercised by the correspondence run",
         "hashlink LinkedHashMap::insert / Entry::or_insert_with move an existing entry to the back (transcribed: lhm_insert, add_value)",
-        "harness tokeniser for JSON text (via serde_json::Value), metadata and datum trees (via the public accessors)",
+        "harness tokeniser for JSON text (via serde_json::Value), metadata and datum trees (via the public accessors); bech32 strings and embedded JSON text are exchanged as placeholders",
+        "C01's schemas and decoder (Codec/Schema.v, Ledger/Schemas.v) give the wire-value trees the typed annotations are interpreted over",
     ],
     "assumptions": [
         "known classes excluded from the round-trip theorems: C17-noconv-unsorted-map (metadata map whose keys are not strictly ascending in byte "
         "order, NoConversions), C17-plutus-map-empty-values (PlutusMap key inserted with an empty PlutusMapValues)",
         "md_wf / pd_wf / json_wf are representation invariants (distinct keys of a LinkedHashMap, 64-byte limit of new_bytes/new_text, "
         "u64 constructor alternatives, sorted duplicate-free serde_json objects), not restrictions of the inputs",
-        "the typed-value clause is an observation over generated values, not a theorem (see level_note)",
+        "the typed-value clause is a theorem for the 60 annotated types under the explicit premises wfj / jwf / canonical; for the remaining types it is an observation (see level_note)",
         "build features as shipped: arbitrary-precision-json on; debug build (overflow checks on)",
     ],
     "explanation": "Theorems quantify over all trees / documents / byte strings (structural and size inductions); the correspondence run ties the Gallina "
